@@ -11,6 +11,10 @@
 //!   * inline       – `a` then `b`, both on the current virtual worker, `b` not migrated;
 //!   * steal-after  – `a`, then `b` with `migrated() == true` on another virtual worker;
 //!   * steal-before – `b` (migrated, other worker) runs to completion first, then `a`.
+//! After `a` of a steal-after join the worker *waits* for the stolen `b`; like the real pool's
+//! worker it may then "help": pop its own most recent pending job (the `b` of an enclosing
+//! inline join - e.g. another task of an outer parallel loop) or steal the oldest pending job
+//! of another worker, and run it nested inside the wait with `migrated == true`.
 //! Every such behaviour is one the real pool can exhibit.  What this backend cannot
 //! produce is overlap of leaf jobs from sibling subtrees or preemption inside a leaf;
 //! engine E2 (the real rayon-core under Miri) covers that.
@@ -88,6 +92,77 @@ where
     join_context(|_| oper_a(), |_| oper_b())
 }
 
+// A job that sits on its owner's deque while the owner runs the other arm of the join:
+// exactly the jobs a *waiting* worker of the real pool may pick up ("help") - its own most
+// recent one (`take_local_job`) or the oldest one of another worker (a steal) - and run
+// nested inside its wait, with `migrated == true` (`StackJob::execute`).
+struct Pending {
+    id: u64,
+    owner: usize,
+    run: *mut (dyn FnMut(usize) + 'static),
+}
+
+thread_local! {
+    static PENDING: RefCell<Vec<Pending>> = RefCell::new(Vec::new());
+    static NEXT_PENDING: std::cell::Cell<u64> = std::cell::Cell::new(0);
+}
+
+pub(crate) fn clear_pending() {
+    PENDING.with(|p| p.borrow_mut().clear());
+}
+
+/// Removes the entry when the owner's arm `a` returns or unwinds.
+struct PendingGuard(u64);
+
+impl Drop for PendingGuard {
+    fn drop(&mut self) {
+        let id = self.0;
+        PENDING.with(|p| p.borrow_mut().retain(|e| e.id != id));
+    }
+}
+
+/// The current worker waits for a stolen job: let it help, as often as the schedule says.
+fn help_while_waiting(here: usize) {
+    loop {
+        // candidates: own most recent pending job, oldest pending job of any other worker
+        let (local, foreign) = PENDING.with(|p| {
+            let p = p.borrow();
+            let local = p.iter().rev().find(|e| e.owner == here).map(|e| e.id);
+            let foreign = p.iter().find(|e| e.owner != here).map(|e| e.id);
+            (local, foreign)
+        });
+        let mut options: Vec<u64> = Vec::new();
+        options.extend(local);
+        options.extend(foreign);
+        if options.is_empty() {
+            return;
+        }
+        let c = with(|s| s.choose(Kind::Help, options.len() + 1)) as usize;
+        if c == 0 {
+            return;
+        }
+        let id = options[c - 1];
+        // take it off the deque, then run it on this worker
+        let job = PENDING.with(|p| {
+            let mut p = p.borrow_mut();
+            p.iter().position(|e| e.id == id).map(|i| p.remove(i))
+        });
+        if let Some(job) = job {
+            with(|s| {
+                if job.owner == here {
+                    s.stats.helped_local += 1;
+                } else {
+                    s.stats.helped_foreign += 1;
+                }
+            });
+            // SAFETY: the entry was registered by a `join_context` frame that is still
+            // executing its arm `a` (we are inside it); it unregisters the entry before it
+            // touches the closure again, and the closure is run at most once.
+            unsafe { (*job.run)(here) };
+        }
+    }
+}
+
 pub fn join_context<A, B, RA, RB>(oper_a: A, oper_b: B) -> (RA, RB)
 where
     A: FnOnce(FnContext) -> RA + Send,
@@ -149,31 +224,64 @@ where
         with(|s| s.depth = depth);
         oper_a(FnContext::new(injected))
     };
+    let run_b = |oper_b: B, worker: usize, migrated: bool| {
+        let _f = Frame::enter(Some(worker));
+        with(|s| s.depth = depth);
+        oper_b(FnContext::new(migrated))
+    };
     let result = match decision {
         0 => {
-            let ra = run_a(oper_a);
-            let rb = {
-                let _f = Frame::enter(Some(here));
-                with(|s| s.depth = depth);
-                oper_b(FnContext::new(injected))
+            // `b` stays on this worker's deque while `a` runs: a worker that waits further
+            // down (this one, or another) may take it and run it nested. Only in a pool of
+            // more than one worker - a lone worker never waits.
+            let mut slot_b = Some(oper_b);
+            let mut helped: Option<std::thread::Result<RB>> = None;
+            let ra = if with(|s| s.width) > 1 {
+                let mut runner = |worker: usize| {
+                    if let Some(b) = slot_b.take() {
+                        let r = std::panic::catch_unwind(std::panic::AssertUnwindSafe(|| {
+                            let _f = Frame::enter(Some(worker));
+                            with(|s| s.depth = depth);
+                            b(FnContext::new(true))
+                        }));
+                        helped = Some(r);
+                    }
+                };
+                let id = NEXT_PENDING.with(|n| {
+                    n.set(n.get() + 1);
+                    n.get()
+                });
+                {
+                    let short: *mut (dyn FnMut(usize) + '_) = &mut runner;
+                    // SAFETY: lifetime erasure only; the entry is removed (guard) before
+                    // `runner` and what it borrows go out of scope.
+                    let run: *mut (dyn FnMut(usize) + 'static) = unsafe { std::mem::transmute(short) };
+                    PENDING.with(|p| p.borrow_mut().push(Pending { id, owner: here, run }));
+                }
+                let guard = PendingGuard(id);
+                let ra = run_a(oper_a);
+                drop(guard);
+                ra
+            } else {
+                run_a(oper_a)
+            };
+            let rb = match helped {
+                Some(Ok(rb)) => rb,
+                // the real pool re-raises a job's panic where the job is joined
+                Some(Err(payload)) => std::panic::resume_unwind(payload),
+                None => run_b(slot_b.take().expect("job b neither helped nor pending"), here, injected),
             };
             (ra, rb)
         }
         1 => {
             let ra = run_a(oper_a);
-            let rb = {
-                let _f = Frame::enter(Some(thief));
-                with(|s| s.depth = depth);
-                oper_b(FnContext::new(true))
-            };
+            // `b` was stolen and is not finished: this worker waits for it, and helps
+            help_while_waiting(here);
+            let rb = run_b(oper_b, thief, true);
             (ra, rb)
         }
         _ => {
-            let rb = {
-                let _f = Frame::enter(Some(thief));
-                with(|s| s.depth = depth);
-                oper_b(FnContext::new(true))
-            };
+            let rb = run_b(oper_b, thief, true);
             let ra = run_a(oper_a);
             (ra, rb)
         }
